@@ -507,7 +507,8 @@ def solve(job, b, wd):
             import resource
             resource.setrlimit(resource.RLIMIT_AS, (MEM_KB * 1024, MEM_KB * 1024))
         f = open(outp, "w")
-        p = subprocess.Popen(cmd, stdout=f, stderr=subprocess.STDOUT, preexec_fn=pre, cwd=wd)
+        # cbmc writes the CNF for an external solver to $TMPDIR: keep it inside the job's scratch directory (removed with it)
+        p = subprocess.Popen(cmd, stdout=f, stderr=subprocess.STDOUT, preexec_fn=pre, cwd=wd, env=dict(os.environ, TMPDIR=wd))
         procs.append((s, p, outp, f, cmd))
     t0 = time.time()
     winner = None
